@@ -81,4 +81,24 @@ PROPS = {
                         "de-duplication is by SHA-256 hash: 'stored once' assumes no collision among the sub-cells",
                         "the universal claim about the serialiser's reordering is validated per output by a certificate, not proved for all inputs"],
     },
+    'C18': {
+        'level': 'proof',
+        'coq': ['Properties/C18.v'],
+        'coq_gen': [],
+        'rule': ("dictionaries (key widths 8..256, 1..60 entries, shapes: random / long common prefixes / runs / dense) built "
+                 "by an independent encoder with minimal or random label forms per edge, x present keys (first, last, random; "
+                 "all in the thorough tier) and absent keys (random, one bit away from a present key): proof bytes of "
+                 "tlb.ProveKeyInHashmap vs the extracted model (label walk, prune, Merkle-proof cell, serialiser); random "
+                 "cell trees x random prune sets through Cursor.Ref/Prune: CreateProof bytes vs model. Oracles on the "
+                 "implementation: proof is a single-root BOC whose root is a level-0 Merkle-proof cell with 03|hash|depth of "
+                 "the original root, the child's level-0 hash/depth equal them, every pruned branch stores 01 01|hash|depth of "
+                 "the replaced subtree, the value for the key is readable along the key path, absent keys yield an error. "
+                 "A class is (stream, width bucket, label forms, size bucket, outcome)."),
+        'explanation': ("coq/Properties/C18.v: for every hash function with 32-byte output, every tree without pruned/Merkle "
+                        "cells and every prune set: pruning preserves the level-0 hash and depth, pruned branches store the "
+                        "replaced subtree's hash/depth, the proof root commits to the original root, unpruned positions keep "
+                        "their data; a proof is produced only if the walk spells the key."),
+        'assumptions': ["source trees containing pruned-branch or Merkle cells are outside the theorem (the library does not support them either)",
+                        "absence of a key is characterised by the walk not spelling it; the link to the abstract dictionary map is C05's"],
+    },
 }
